@@ -156,3 +156,42 @@ pub proof fn lemma_rt_garbage_never_fails<'s, E, F: Parser<&'s str, char, E>, G:
         lemma_rt_garbage_never_fails::<E, F, G>(f, g, m, (n - 1) as nat);
     }
 }
+// ---- an alternative (`range`): nothing at all (blanks, then `||` or the end) is `*`; otherwise comparators separated by blanks
+pub open spec fn empty_alt(s: Seq<char>) -> bool { let r = skip_ws(s); r.len() == 0 || starts2(r, '|', '|') }
+pub open spec fn elem_ok(o: Option<BoundSet>) -> bool { o matches Some(b) ==> bs_wf(b) && bs_small(b) }
+pub open spec fn all_elem_ok(s: Seq<Option<BoundSet>>) -> bool { forall|k: int| 0 <= k < s.len() ==> elem_ok(#[trigger] s[k]) }
+// every element of a separated list satisfies what the element parser guarantees (induction over the list)
+pub proof fn lemma_sep_tail_elems<'s, E, P: Parser<&'s str, Option<BoundSet>, E>, S: Parser<&'s str, &'s str, E>>(p: P, s: S, m: &'s str, out: Seq<Option<BoundSet>>, rest: &'s str)
+    requires forall|a: &'s str, o: Option<BoundSet>, b: &'s str| #[trigger] p.accepts(a, o, b) ==> elem_ok(o), sep_tail::<&'s str, Option<BoundSet>, &'s str, E, P, S>(p, s, m, out, rest),
+    ensures all_elem_ok(out),
+    decreases out.len(),
+{
+    if out.len() > 0 {
+        let (x, m2, m3) = choose|x: &'s str, m2: &'s str, m3: &'s str| #[trigger] s.accepts(m, x, m2) && #[trigger] p.accepts(m2, out[0], m3) && sep_tail::<&'s str, Option<BoundSet>, &'s str, E, P, S>(p, s, m3, out.drop_first(), rest);
+        lemma_sep_tail_elems::<E, P, S>(p, s, m3, out.drop_first(), rest);
+        assert forall|k: int| 0 <= k < out.len() implies elem_ok(#[trigger] out[k]) by { if k > 0 { assert(out[k] == out.drop_first()[k - 1]); } }
+    }
+}
+pub proof fn lemma_sep_all_elems<'s, E, P: Parser<&'s str, Option<BoundSet>, E>, S: Parser<&'s str, &'s str, E>>(p: P, s: S, i: &'s str, out: Seq<Option<BoundSet>>, rest: &'s str)
+    requires forall|a: &'s str, o: Option<BoundSet>, b: &'s str| #[trigger] p.accepts(a, o, b) ==> elem_ok(o), sep_all::<&'s str, Option<BoundSet>, &'s str, E, P, S>(p, s, i, out, rest),
+    ensures all_elem_ok(out),
+{
+    if out.len() > 0 {
+        let m = choose|m: &'s str| #[trigger] p.accepts(i, out[0], m) && sep_tail::<&'s str, Option<BoundSet>, &'s str, E, P, S>(p, s, m, out.drop_first(), rest);
+        lemma_sep_tail_elems::<E, P, S>(p, s, m, out.drop_first(), rest);
+        assert forall|k: int| 0 <= k < out.len() implies elem_ok(#[trigger] out[k]) by { if k > 0 { assert(out[k] == out.drop_first()[k - 1]); } }
+    }
+}
+// all alternatives of a text, flattened (what `bound_sets` collects)
+pub open spec fn flat_sets(alts: Seq<Vec<BoundSet>>) -> Seq<BoundSet>
+    decreases alts.len()
+{
+    if alts.len() == 0 { Seq::<BoundSet>::empty() } else { flat_sets(alts.drop_last()) + alts.last()@ }
+}
+pub proof fn lemma_or_consumes(a: Seq<char>)
+    ensures g_or(a) matches Some(b) ==> b.len() < a.len(),
+{
+    lemma_span_le(a, |c: char| ws_char(c));
+    let r = skip_ws(a);
+    if starts2(r, '|', '|') { lemma_span_le(r.skip(2), |c: char| ws_char(c)); }
+}
